@@ -79,7 +79,7 @@ class IdleSpec(Spec):
 
     def __init__(self, cfg, tier):
         super().__init__(cfg, tier)
-        self.time_budget = 300 if tier == "quick" else 800
+        self.time_budget = 900
         self._acts = [(en, w) for en in (0, 1) for w in WORDS]
 
     def build(self):
@@ -159,7 +159,8 @@ class TimerSpec(Spec):
         self.f = cfg["f"]
         self.K = int(round(KEEPALIVE_S * self.f))
         self.R = int(round(RECOVERY_S * self.f))
-        self.time_budget = 300 if tier == "quick" else 850
+        self.time_budget = 900                                  # safety nets; the state cap is the deterministic one
+        self.max_states = 400_000 if tier == "quick" else 4_000_000
         self._acts = [(en, lcr, pr, lct) for en in (1, 0) for lcr in (0, 1) for pr in (0, 1) for lct in (0, 1)]
 
     def build(self):
